@@ -242,13 +242,24 @@ def kw_forward(ctx, names, vc, po, admm, icp, cp, init, ft):
                                 if not is_name(kw.get(n), n):
                                     ctx.finding("KW-FORWARD", caller, c2, f"local helper {hname} receives `{n}` as `{src(kw[n]) if n in kw else '<default>'}` rather than {n}={n}", construct=f"{caller.name}->{hname}: {n}={src(kw[n]) if n in kw else '<missing>'}")
                 sites.extend(hsites)
+        scan_caller = caller
+        if not sites:
+            # the call may sit in a private module-level helper: look at the caller with its helpers expanded
+            from ..inline import with_inlined
+
+            scan_caller = with_inlined(repo, caller)
+            for c in own_scope_nodes(scan_caller.node):
+                if isinstance(c, ast.Call):
+                    ct = repo.resolve_call(caller, caller.module, c)
+                    if ct.kind == "repo" and callee in ct.funcs:
+                        sites.append((c, ct))
         if not sites:
             raise AnalysisError(f"KW-FORWARD: hop {caller.qname} -> {callee.name} vanished")
         for c, ct in sites:
             b = bind_call(c, callee, ct.bound)
             # f(**spec) with spec = dict(k=k, ...) / {"k": k, ...}: the keywords are those of the literal
             for sk in list(b.star_kwargs):
-                lit = inline_locals(caller.node, sk) if isinstance(sk, ast.Name) else sk
+                lit = inline_locals(scan_caller.node, sk) if isinstance(sk, ast.Name) else sk
                 pairs = None
                 if isinstance(lit, ast.Call) and is_name(lit.func, "dict") and not lit.args and all(k.arg for k in lit.keywords):
                     pairs = [(k.arg, k.value) for k in lit.keywords]
@@ -285,7 +296,7 @@ def kw_forward(ctx, names, vc, po, admm, icp, cp, init, ft):
                 a = b.params.get("order")
                 if "order" in callee.all_params and not (caller is cp and callee is vc):
                     idxs = set()
-                    stmt_scope = _enclosing_stmt(caller, c)
+                    stmt_scope = _enclosing_stmt(scan_caller, c)
                     for x in ast.walk(stmt_scope):
                         if isinstance(x, ast.Subscript) and isinstance(x.value, ast.Name) and x.value.id in ("factors", "dual_variables", "factors_aux"):
                             idxs.add(src(x.slice))
@@ -441,6 +452,9 @@ def prox_typestate(ctx, names, po, admm, icp, cp):
     if n_st == 0:
         raise AnalysisError("constrained_parafac: no store into factors[...] found; anchor changed")
     # (3) initialiser: svd / random branches pass the prox loop before returning
+    from ..inline import with_inlined
+
+    icp = with_inlined(repo, icp)  # the projection loop may live in a private helper
     loops = []
     for s in own_scope_nodes(icp.node):
         if isinstance(s, ast.For) and len(s.body) == 1 and isinstance(s.body[0], ast.Assign):
